@@ -4,15 +4,21 @@
 //!   chain_vec replay <seqs.ndjson> <out.ndjson> <profile>
 //!       every input line {"id":N,"init":[[..],..],"ops":[{"op":..,"i":..,"x":[..]},..]} is replayed
 //!       twice in lock-step: on a chain of borrowed chunks (`CowBytes::Temporary`, key "T") and on a
-//!       chain of owned chunks (`CowBytes::Static`, key "S").  Every operation and every accessor runs
+//!       chain of owned chunks (`CowBytes::Static`, key "S").  Operations: the inherent ones (push, insert,
+//!       pop, remove, split_to, split_off, truncate, clear), `Buf::advance`, and the consuming methods every
+//!       `bytes::Buf` has (copy_to_bytes(i), copy_to_slice(&mut [0; i]), get_u8(), get_u16()), called through
+//!       the trait on the chain itself, so an override in the implementation is what gets executed.  After
+//!       every operation the value is observed through as_ref, len, is_empty and the observing methods of
+//!       `Buf` (remaining, chunk, has_remaining, chunks_vectored).  Every operation and every accessor runs
 //!       under `catch_unwind`.  After a panic of an operation the replay of that sequence stops
 //!       ("stop":"panic"); it also stops once the observed value is visibly degenerate (see `degenerate`).
 //!   chain_vec random <seed> <count> <steps> <out.ndjson> <profile>
 //!       seeded random sequences (arguments biased to the boundaries and one past), logged the same
 //!       way; the generated operations are written into the "seq" lines so they can be replayed.
 //!   chain_vec cow <strings.json> <out.ndjson> <profile>
-//!       CowBytes itself: accessors, hash, formatting, comparisons, split/truncate/advance/read at
-//!       every position, for the Temporary and the Static variant.
+//!       CowBytes itself: accessors, hash, formatting, comparisons, split/truncate/advance/read and
+//!       Buf::copy_to_bytes / copy_to_slice at every position, Buf::get_u8 / get_u16, has_remaining and
+//!       chunks_vectored, for the Temporary and the Static variant.
 //!
 //! Output: ndjson.  Event lines ("ev":"init"|"op"|"cow1"|"cow2") carry an "id"; an event whose content
 //! (everything but the id) was already logged is not written again: the "seq" lines
@@ -28,7 +34,7 @@ use std::borrow::Borrow;
 use std::collections::HashMap;
 use std::fmt::Write as _;
 use std::hash::{Hash, Hasher};
-use std::io::{BufRead, BufReader, BufWriter, Read, Write};
+use std::io::{BufRead, BufReader, BufWriter, IoSlice, Read, Write};
 use std::panic::{AssertUnwindSafe, catch_unwind};
 
 // ------------------------------------------------------------------------------------------------
@@ -97,6 +103,17 @@ fn js_chunks(s: &mut String, c: &[Vec<u8>]) {
     s.push(']');
 }
 
+fn js_ints(s: &mut String, b: &[u64]) {
+    s.push('[');
+    for (k, x) in b.iter().enumerate() {
+        if k > 0 {
+            s.push(',');
+        }
+        let _ = write!(s, "{x}");
+    }
+    s.push(']');
+}
+
 fn js_strs(s: &mut String, c: &[&'static str]) {
     s.push('[');
     for (k, x) in c.iter().enumerate() {
@@ -118,12 +135,35 @@ struct Obs {
     rem: i64,         // Buf::remaining
     chunk: Vec<u8>,   // Buf::chunk
     empty: bool,      // LongChain::is_empty
+    has: bool,        // Buf::has_remaining
+    iov: Vec<Vec<u8>>, // the slices Buf::chunks_vectored filled into a destination of IOV_CAP entries
+    iov0: i64,        // what Buf::chunks_vectored reports for an empty destination
     drain: Vec<u8>,   // the bytes a reader gets through Buf (chunk/advance on a clone)
     accp: Vec<&'static str>, // accessors that panicked
 }
 
 fn guard<T>(f: impl FnOnce() -> T) -> Option<T> {
     catch_unwind(AssertUnwindSafe(f)).ok()
+}
+
+/// size of the destination handed to `Buf::chunks_vectored` (IovCap of spec/Chain.tla)
+const IOV_CAP: usize = 2;
+
+/// `Buf::chunks_vectored` with a destination of IOV_CAP entries and with an empty one.
+/// Ok((slices filled, count reported for the empty destination)); Err(name) = what went wrong
+/// ("chunks_vectored": a call panicked, "chunks_vectored_count": more slices reported than the destination has).
+fn vectored<B: Buf>(c: &B) -> Result<(Vec<Vec<u8>>, i64), &'static str> {
+    match guard(|| {
+        let mut dst = [IoSlice::new(&[]); IOV_CAP];
+        let n = c.chunks_vectored(&mut dst);
+        let filled: Option<Vec<Vec<u8>>> = dst.get(..n).map(|d| d.iter().map(|x| x.to_vec()).collect());
+        let n0 = c.chunks_vectored(&mut []);
+        (filled, n0 as i64)
+    }) {
+        Some((Some(v), n0)) => Ok((v, n0)),
+        Some((None, _)) => Err("chunks_vectored_count"),
+        None => Err("chunks_vectored"),
+    }
 }
 
 fn observe(c: &LongChain<'_>) -> Obs {
@@ -153,6 +193,20 @@ fn observe(c: &LongChain<'_>) -> Obs {
     match guard(|| c.is_empty()) {
         Some(v) => o.empty = v,
         None => o.accp.push("is_empty"),
+    }
+    match guard(|| c.has_remaining()) {
+        Some(v) => o.has = v,
+        None => o.accp.push("has_remaining"),
+    }
+    match vectored(c) {
+        Ok((v, n0)) => {
+            o.iov = v;
+            o.iov0 = n0;
+        }
+        Err(what) => {
+            o.iov0 = -1;
+            o.accp.push(what);
+        }
     }
     // what a consumer of the Buf reads: chunk() / advance(chunk().len()) until nothing remains
     let total: usize = o.ch.iter().map(Vec::len).sum();
@@ -191,7 +245,9 @@ fn js_obs(s: &mut String, o: &Obs) {
     js_chunks(s, &o.ch);
     let _ = write!(s, ",\"len\":{},\"rem\":{},\"chunk\":", o.len, o.rem);
     js_bytes(s, &o.chunk);
-    let _ = write!(s, ",\"empty\":{},\"drain\":", o.empty);
+    let _ = write!(s, ",\"empty\":{},\"has\":{},\"iov\":", o.empty, o.has);
+    js_chunks(s, &o.iov);
+    let _ = write!(s, ",\"iov0\":{},\"drain\":", o.iov0);
     js_bytes(s, &o.drain);
     s.push_str(",\"accp\":");
     js_strs(s, &o.accp);
@@ -214,6 +270,7 @@ enum Ret {
     Unit,
     None,
     Bytes(Vec<u8>),
+    Int(u64),
     Chain(Obs),
 }
 
@@ -225,6 +282,9 @@ fn js_ret(s: &mut String, r: &Ret) {
             s.push_str("{\"k\":\"bytes\",\"b\":");
             js_bytes(s, b);
             s.push('}');
+        }
+        Ret::Int(v) => {
+            let _ = write!(s, "{{\"k\":\"int\",\"b\":[],\"v\":{v}}}");
         }
         Ret::Chain(o) => {
             s.push_str("{\"k\":\"chain\",\"b\":[],\"c\":");
@@ -283,6 +343,15 @@ fn apply<'a>(c: &mut LongChain<'a>, v: Variant, op: &'a OpRec) -> Result<Ret, ()
             c.clear();
             Ret::Unit
         }
+        // the consuming methods of bytes::Buf, through the trait on the chain itself
+        "copy_to_bytes" => Ret::Bytes(Buf::copy_to_bytes(&mut *c, op.i).to_vec()),
+        "copy_to_slice" => {
+            let mut dst = vec![0u8; op.i];
+            Buf::copy_to_slice(&mut *c, &mut dst);
+            Ret::Bytes(dst)
+        }
+        "get_u8" => Ret::Int(u64::from(Buf::get_u8(&mut *c))),
+        "get_u16" => Ret::Int(u64::from(Buf::get_u16(&mut *c))),
         other => {
             eprintln!("unknown operation {other}");
             std::process::exit(3);
@@ -612,7 +681,7 @@ fn random(seed: u64, count: u64, steps: usize, out: &str, prof: &str) {
             let total: usize = shape.iter().map(Vec::len).sum();
             // out-of-range arguments are rare (about 2% of the operations) so that sequences get long
             let oob = r.below(100) < 2;
-            let opn = r.below(16);
+            let opn = r.below(21);
             let mut seg = |r: &mut Rng| -> Vec<u8> {
                 let n = 1 + r.below(4) as usize;
                 (0..n).map(|_| { next_byte = next_byte.wrapping_add(1); next_byte }).collect()
@@ -649,6 +718,24 @@ fn random(seed: u64, count: u64, steps: usize, out: &str, prof: &str) {
                         i
                     };
                     OpRec { op: nm.into(), i, x: Vec::new() }
+                }
+                16..=18 => {
+                    // Buf::copy_to_bytes / copy_to_slice: lengths at, just inside and one past the chunk
+                    // boundaries; small most of the time so that the chain does not stay empty
+                    let nm = ["copy_to_bytes", "copy_to_slice", "copy_to_bytes"][(opn - 16) as usize];
+                    let i = if oob { total + 1 + r.below(3) as usize } else { pick_offset(&mut r, shape, false) };
+                    let first = shape.first().map_or(0, Vec::len);
+                    let i = if !oob && r.below(3) > 0 { i.min(first + r.below(2) as usize).min(total) } else { i };
+                    OpRec { op: nm.into(), i, x: Vec::new() }
+                }
+                // get_u8 / get_u16 with too few bytes remaining are out-of-range calls: rare, like the others
+                19 | 20 => {
+                    let (nm, w) = if opn == 19 { ("get_u8", 1) } else { ("get_u16", 2) };
+                    if total >= w || oob {
+                        OpRec { op: nm.into(), i: 0, x: Vec::new() }
+                    } else {
+                        OpRec { op: "push".into(), i: 0, x: seg(&mut r) }
+                    }
                 }
                 _ => {
                     if r.below(8) == 0 {
@@ -713,6 +800,16 @@ fn cow_unary(s: &mut String, v: Variant, x: &[u8]) {
     s.push_str(",\"chunk\":");
     js_bytes(s, c.chunk());
     let _ = write!(s, ",\"rem\":{},\"hash\":\"{}\",\"lhex\":\"{:x}\",\"uhex\":\"{:X}\"", c.remaining(), hash_of(&c), c, c);
+    let _ = write!(s, ",\"has\":{},\"iov\":", c.has_remaining());
+    match vectored(&c) {
+        Ok((v, n0)) => {
+            js_chunks(s, &v);
+            let _ = write!(s, ",\"iov0\":{n0},\"iov_err\":\"\"");
+        }
+        Err(what) => {
+            let _ = write!(s, "[],\"iov0\":-1,\"iov_err\":\"{what}\"");
+        }
+    }
     let cl = c.clone();
     let _ = write!(s, ",\"clone_eq\":{},\"clone\":", cl == c);
     js_bytes(s, cl.as_ref());
@@ -720,12 +817,39 @@ fn cow_unary(s: &mut String, v: Variant, x: &[u8]) {
     js_bytes(s, c.clone().into_static().as_ref());
     s.push_str(",\"ops\":[");
     let mut first = true;
-    for op in ["split_to", "split_off", "truncate", "advance", "read"] {
-        for p in 0..=x.len() + 1 {
+    // (operation, takes a position): the get operations are logged once, with p = 0.
+    // `ret` is a list of bytes, except for get_u8 / get_u16: a one-element list holding the value.
+    for (op, positional) in [
+        ("split_to", true),
+        ("split_off", true),
+        ("truncate", true),
+        ("advance", true),
+        ("read", true),
+        ("copy_to_bytes", true),
+        ("copy_to_slice", true),
+        ("get_u8", false),
+        ("get_u16", false),
+    ] {
+        for p in 0..=(if positional { x.len() + 1 } else { 0 }) {
             let mut d = mk(v, x);
+            let mut value: Option<u64> = None;
             let r = catch_unwind(AssertUnwindSafe(|| match op {
                 "split_to" => d.split_to(p).as_ref().to_vec(),
                 "split_off" => d.split_off(p).as_ref().to_vec(),
+                "copy_to_bytes" => Buf::copy_to_bytes(&mut d, p).to_vec(),
+                "copy_to_slice" => {
+                    let mut dst = vec![0u8; p];
+                    Buf::copy_to_slice(&mut d, &mut dst);
+                    dst
+                }
+                "get_u8" => {
+                    value = Some(u64::from(Buf::get_u8(&mut d)));
+                    Vec::new()
+                }
+                "get_u16" => {
+                    value = Some(u64::from(Buf::get_u16(&mut d)));
+                    Vec::new()
+                }
                 "truncate" => {
                     d.truncate(p);
                     Vec::new()
@@ -749,7 +873,10 @@ fn cow_unary(s: &mut String, v: Variant, x: &[u8]) {
             let me = guard(|| d.as_ref().to_vec()).unwrap_or_default();
             js_bytes(s, &me);
             let _ = write!(s, ",\"len\":{},\"ret\":", guard(|| d.len() as i64).unwrap_or(-1));
-            js_bytes(s, &r.unwrap_or_default());
+            match value {
+                Some(v) => js_ints(s, &[v]),
+                None => js_bytes(s, &r.unwrap_or_default()),
+            }
             s.push('}');
         }
     }
